@@ -1244,6 +1244,12 @@ def r8_lookup_use(ctx):
 
 
 def run(ctx):
+    # the attack sets are looked up anew for the squares and the occupancy of the board in hand: the generator keeps no remembered attack
+    # sets besides its keyed caches (= C02.R4; an "incremental" memo of slider attacks keyed by a snapshot that misses the ray ends goes stale)
+    from . import c02
+    import_rules(ctx, 'C11.R9-no-remembered-attacks', [c02.r4_unkeyed_state],
+                 'slider attacks must be those of the present occupancy: a memo whose key omits part of what the attack set depends on serves '
+                 'the attack set of another position', floor=3)
     r8_lookup_use(ctx)
     r1_leapers(ctx)
     r2_deltas(ctx)
